@@ -97,6 +97,7 @@ theorem all_done_of_zero {k : Conn} (hi : ConnInv k) (ho : k.srvClosed = false) 
     | true => rfl
     | false => simp [hst, HSt.ok] at hok
   | queued => simp [notDone, hst, HSt.isDone] at hnd
+  | handed => simp [notDone, hst, HSt.isDone] at hnd
   | running => simp [notDone, hst, HSt.isDone] at hnd
   | finished => simp [notDone, hst, HSt.isDone] at hnd
   | wrote ok => simp [notDone, hst, HSt.isDone] at hnd
@@ -335,6 +336,10 @@ theorem stay_cSetSt (i : Nat) (frm : HSt) (to : Conn → HSt) : Stay (fun k => c
 
 theorem good_cStart (i : Nat) : Good (cStart i) :=
   good_cSetSt i .queued (fun _ => .running) rfl (fun _ => rfl) (fun _ _ => rfl)
+theorem good_cHand (i : Nat) : Good (cHand i) :=
+  good_cSetSt i .queued (fun _ => .handed) rfl (fun _ => rfl) (fun _ _ => rfl)
+theorem good_cStartP (i : Nat) : Good (cStartP i) :=
+  good_cSetSt i .handed (fun _ => .running) rfl (fun _ => rfl) (fun _ _ => rfl)
 theorem good_cFin (i : Nat) : Good (cFin i) :=
   good_cSetSt i .running (fun _ => .finished) rfl (fun _ => rfl) (fun _ _ => rfl)
 theorem good_cWrite (i : Nat) : Good (cWrite i) :=
@@ -342,6 +347,8 @@ theorem good_cWrite (i : Nat) : Good (cWrite i) :=
     (fun k h => by simp [h, HSt.ok])
 
 theorem stay_cStart (i : Nat) : Stay (cStart i) := stay_cSetSt i .queued (fun _ => .running)
+theorem stay_cHand (i : Nat) : Stay (cHand i) := stay_cSetSt i .queued (fun _ => .handed)
+theorem stay_cStartP (i : Nat) : Stay (cStartP i) := stay_cSetSt i .handed (fun _ => .running)
 theorem stay_cFin (i : Nat) : Stay (cFin i) := stay_cSetSt i .running (fun _ => .finished)
 theorem stay_cWrite (i : Nat) : Stay (cWrite i) := stay_cSetSt i .finished (fun k => .wrote (!k.srvClosed))
 
